@@ -38,8 +38,12 @@ FINDINGS on the unchanged code (each has its own family classifier):
   roundtrip-both-quote-kinds  a value with both ' and " that also has '#' or
       starts and ends with the same quote character loses/gains quotes
 
-Mutants this was built against (scratch worktree; caught by the oracle with a
-concrete input unless noted): see the list at the end of this docstring.
+The ignore_parents cut exists in two modelled shapes ('excl' = the code as
+found, 'incl' = documented / the proposed patch); the harness probes the live
+LocationMatcher once and asks the model for the matching one.
+
+Mutants this was built against (scratch worktree; each caught by the oracle
+with a concrete input):
   M1  _iter_for_location_by_parts: `len(section_parts) > len(location_parts)` -> `>=`
   M2  extra_path from `location_parts[len(section_parts) - 1:]`
   M3  LocationMatcher.get_sections sort key `(match[0], id)` -> `(id,)` (alphabetical, not by depth)
@@ -51,7 +55,11 @@ concrete input unless noted): see the list at the end of this docstring.
   M9  IniFileStore.unquote never unquotes
   M10 fnmatch(name[0], name[1]) arguments swapped
   M11 ignore_parents: `if ignore: break` -> `if ignore is not None: break`
-  H1  harmless: matched computed with all(...) instead of the loop — clean.
+  M12 StartingPathMatcher: `self.location.startswith(section_path)` operands swapped
+  M13 MutableSection.set returns early when overwriting an option of the loaded file
+  H1  harmless: `matched` computed with all(...) instead of the loop — clean.
+  FIX the proposed patch for ignore_parents (yield, then break): that family disappears,
+      0 mismatches; breezy.tests.test_config (717 tests) passes with it.
 """
 import fnmatch
 import os
